@@ -44,7 +44,7 @@ BUDGET = {
     "thorough": dict(cases=6000, shards=16, timeout=5400, time=1500),
 }
 _BASE = ["small", "wide", "lens_mixed", "lm_plain", "saturated", "lm_mixture", "peaky", "wide_lm", "T0",
-         "manual", "uniform", "lm_batch_lens", "f64", "beta0", "wide_sat", "big_working_set", "long_pow2_vocab"]
+         "manual", "uniform", "lm_batch_lens", "f64", "beta0", "wide_sat", "big_working_set", "long_pow2_vocab", "very_long"]
 FLOORS = {
     "quick": {
         "events": {"CTCPrefixSearch": 1500, "ctc_prefix_search_advance": 5000,
@@ -215,6 +215,25 @@ def generate(rng, tier, i):
         if N == 2 and rng.random() < 0.5:
             lens = [T, rng.randint(T // 2, T)]
             rng.shuffle(lens)
+    if cls == "very_long":
+        # utterances of 64..160 frames (periodic bookkeeping, drift), ragged batches in which some element ends long
+        # before the others; confident frames so that the masses stay well inside single precision
+        V, N = rng.choice([1, 1, 2, 3]), rng.choice([1, 2, 2, 3])
+        T = rng.choice([64, 65, 70, 80, 128, 129, 160, rng.randint(64, 160)])
+        width = rng.choice([70, 100, T + 5]) if (V == 1 and rng.random() < 0.6) else rng.randint(1, 6)
+        logits = []
+        for t in range(T):
+            frame = []
+            for n in range(N):
+                row = [round(rng.gauss(0.0, 0.7), 3) for _ in range(V + 1)]
+                row[rng.randrange(V + 1) if rng.random() < 0.5 else V] += rng.choice([3.0, 4.0, 6.0])
+                frame.append(row)
+            logits.append(frame)
+        if N > 1:
+            lens = [T] + [rng.choice([rng.randint(1, 63), rng.randint(1, T), 20]) for _ in range(N - 1)]
+            rng.shuffle(lens)
+        if rng.random() < 0.25:
+            lm = _lm(rng, N, rng.choice([0.3, 1.0]), rng.random() < 0.5)
     return {"class": cls, "T": T, "N": N, "V": V, "width": width, "dtype": dtype, "logits": logits,
             "lens": lens, "lm": lm, "form": form}
 
